@@ -690,7 +690,7 @@ def check_diamond(case):
     """Re-converging dependents of a volatile cell through ExcelModel.compile: every returned cell must agree with its
     own formula applied to the values returned in the same call, on every call, with the clock advanced in between."""
     import datetime
-    shape = case['shape']
+    shape, via = case['shape'], case.get('via', 'orig')
     Q = "'[b.xlsx]S'!"
     d = {Q + 'A1': '=NOW()', Q + 'Z1': 1.0}
     forms = {
@@ -704,7 +704,34 @@ def check_diamond(case):
     t = datetime.datetime(2021, 3, 4, 10, 0, 0)
     with Patched(11):
         CLOCK.set_now(t)
-        m = sut.ExcelModel().from_dict(d)
+        if via in ('grow', 'grow-formula'):
+            # the model is compiled once while it holds no volatile cell, then grows, then is compiled again
+            first = {Q + 'Z1': 1.0, Q + 'Y1': '=%sZ1+1' % Q}
+            if via == 'grow-formula':
+                first[Q + 'A1'] = 5.0  # later re-imported as =NOW()
+            m = sut.ExcelModel().from_dict(first)
+            n0 = {str(k).upper(): k for k in m.dsp.data_nodes if isinstance(k, str)}
+            f0 = m.compile([n0[Q.upper() + 'Z1']], [n0[Q.upper() + 'Y1']])
+            y = sut.one(f0(2.0))
+            if y != 3.0:
+                fails.append(('first-compile|%s' % via, 'Y1 = Z1+1 with Z1=2 gives %r' % (y,)))
+            m.from_dict(d)
+        else:
+            m = sut.ExcelModel().from_dict(d)
+        if via == 'recompile':
+            n0 = {str(k).upper(): k for k in m.dsp.data_nodes if isinstance(k, str)}
+            m.compile([n0[Q.upper() + 'Z1']], [n0[Q.upper() + 'A2']])
+        if via == 'calc-first':
+            m.calculate()
+        if via == 'deepcopy':
+            import copy
+            m = copy.deepcopy(m)
+        elif via == 'copy':
+            import copy
+            m = copy.copy(m)
+        elif via == 'dill':
+            import dill
+            m = dill.loads(dill.dumps(m))
         outs = [Q.upper() + k for k in ['A1'] + sorted(forms)]
         nodes = {str(k).upper(): k for k in m.dsp.data_nodes if isinstance(k, str)}
         func = m.compile([nodes[Q.upper() + 'Z1']], [nodes[o] for o in outs])
@@ -717,16 +744,16 @@ def check_diamond(case):
             for k, (x, c, y) in forms.items():
                 exp = vals[x] + c + (vals[y] if y else 0.0)
                 if not (isinstance(vals[k], float) and abs(vals[k] - exp) < 1e-9):
-                    fails.append(('snapshot|NOW|compile:indep|%s' % shape, 'call %d: %s = %r but its formula over the same call gives %r' % (i + 1, k, vals[k], exp)))
+                    fails.append(('snapshot|NOW|compile:indep|%s|%s' % (shape, via), 'call %d: %s = %r but its formula over the same call gives %r' % (i + 1, k, vals[k], exp)))
             if prev is not None and vals['A1'] == prev:
-                fails.append(('frozen|NOW|compile:indep|%s' % shape, 'call %d: NOW() did not move' % (i + 1)))
+                fails.append(('frozen|NOW|compile:indep|%s|%s' % (shape, via), 'call %d: NOW() did not move' % (i + 1)))
             prev = vals['A1']
     seen, out = set(), []
     for s_, d_ in fails:
         if s_ not in seen:
             seen.add(s_)
             out.append((s_, d_))
-    return R(out, nt=True, n=4, labels=['diamond:' + shape])
+    return R(out, nt=True, n=4, labels=['diamond:' + shape, 'compile-via:' + via])
 
 
 # ----------------------------------------------------------------------------
@@ -1063,5 +1090,6 @@ def parts(tier, seed):
         ('enum', 'rb-fractional', [{'k': 'rbfrac', 'lo': lo, 'hi': hi, 'n': 30 if q else 200, 'rs': seed}
                                    for lo, hi in [(-3.5, -1.5), (-7.9, -7.1), (-0.5, -0.2), (0.2, 3.7), (1.5, 9.5), (-9.5, 9.5), (-2.0, -1.0),
                                                   (2.5, 2.9), (-10.25, -0.75), (0.0, 0.9), (-1.5, 1.5), (3.0, 3.0), (-4.5, -4.5)]], 2, False),
-        ('enum', 'diamonds', [{'k': 'diamond', 'shape': sh_} for sh_ in ('diamond', 'chain-fan', 'late-join')], 1, False),
+        ('enum', 'diamonds', [{'k': 'diamond', 'shape': sh_, 'via': via} for sh_ in ('diamond', 'chain-fan', 'late-join')
+                             for via in ('orig', 'deepcopy', 'copy', 'dill', 'grow', 'grow-formula', 'recompile', 'calc-first')], 1, False),
     ]
